@@ -8,7 +8,7 @@ use hpo::term::HpoGroup;
 use hpo::HpoSet;
 use serde_json::{json, Value};
 
-pub fn replay_line(st: &mut Stats, line: &Value) {
+pub fn replay_line(st: &mut Stats, prop: &str, line: &Value) {
     st.cases += 1;
     st.evaluations += 1;
     let n = line["n"].as_u64().unwrap() as usize;
@@ -60,7 +60,7 @@ pub fn replay_line(st: &mut Stats, line: &Value) {
         }
     }
     if !d.is_empty() && st.violations.len() < 4 {
-        st.violations.push(Violation { property: "EXTRA".into(), what: d[0].clone(), replay: json!({"cmd": "replay-linkage", "property": "EXTRA", "line": line, "diffs": d}) });
+        st.violations.push(Violation { property: prop.to_string(), what: d[0].clone(), replay: json!({"cmd": "replay-linkage", "property": prop, "line": line, "diffs": d}) });
     }
 }
 
@@ -72,9 +72,10 @@ pub fn run(args: &Args) {
         eprintln!("no REPLAY lines");
         std::process::exit(2);
     }
+    let prop = args.get("prop").unwrap_or("EXTRA").to_string();
     let mut st = Stats::default();
     for l in &lines {
-        guard_case(&mut st, "EXTRA", "replay-linkage", l, |st| replay_line(st, l));
+        guard_case(&mut st, &prop, "replay-linkage", l, |st| replay_line(st, &prop, l));
     }
     finish(st, args.req("out"), args.req("replay-dir"), json!({"lines": lines.len()}));
 }
